@@ -659,6 +659,9 @@ class CSSParser:
         elif not complex_pseudo and pseudo in PSEUDO_SIMPLE_NO_MATCH:
             sel.no_match = True
             has_selector = True
+        elif not complex_pseudo and pseudo.startswith(':--'):
+            # A custom selector whose leading dashes were written as escapes
+            has_selector = self.parse_pseudo_class_custom(sel, m, has_selector)
         elif pseudo in PSEUDO_SUPPORTED:
             raise SelectorSyntaxError(
                 f"Invalid syntax for pseudo class '{pseudo}'",
